@@ -238,7 +238,8 @@ def run(tier):
                 s.mprobes.append(bwd(s.base, [c for c in cells if c != 0x8000] or [0x8001]))
         s.A = {}
         for ci, k in enumerate(s.cps):
-            setup = ["TBL other.ctb " + common.hexbytes(OTHER), "TBL other2.ctb " + common.hexbytes(OTHER)]
+            setup = ["TBL other.ctb " + common.hexbytes(OTHER), "TBL other2.ctb " + common.hexbytes(OTHER),
+                     "TBL other3.ctb " + common.hexbytes(OTHER)]
             if s.base_text is not None:
                 setup.append("TBL %s %s" % (s.base, common.hexbytes(s.base_text)))
             ops, tags = [], []
@@ -252,6 +253,10 @@ def run(tier):
             op("ADD %s %s" % (s.base, common.hexbytes("# compile, do not finalise")), "compile")
             for i in range(k):
                 txt, kind = s.adds[i]
+                if i == k // 3 and k >= 3:
+                    # another list is entered for the first time while this one is still growing: the list under test is
+                    # no longer the most recently entered one when its image moves (seeded change C15-C)
+                    op("ADD other3.ctb 23", "other3-load")
                 if kind == "malformed" and ci == len(s.cps) - 1:
                     op("DUMP %s nofinal" % s.base, ("pre", i)); op("DISPDUMP %s" % s.base, ("dpre", i))
                 op("ADD %s %s" % (s.base, common.hexbytes(txt)), ("add", i))
@@ -262,6 +267,8 @@ def run(tier):
                 op(p, "other-after")
             op("DUMP other.ctb", "other-dump-after")
             op("DUMP other2.ctb nofinal", "other2-dump-after")
+            if k >= 3:
+                op("DUMP other3.ctb nofinal", "other3-dump-after")
             use = USES[(si + ci) % len(USES)]
             # the first use
             if use == "FWD":
@@ -463,7 +470,8 @@ def run(tier):
                     v.violation("C15:other-list-affected", "additions to one list changed the results of another list (%s)" % name, rep)
             if strip(tagged(a, "other-dump-before")[0]) != strip(tagged(a, "other-dump-after")[0]) or \
                     strip(tagged(a, "other-dump-after")[0]) != strip(cOther.out[-1]) or \
-                    strip(tagged(a, "other2-dump-after")[0]) != strip(cOther.out[-2]):
+                    strip(tagged(a, "other2-dump-after")[0]) != strip(cOther.out[-2]) or \
+                    any(strip(x) != strip(cOther.out[-2]) for x in tagged(a, "other3-dump-after")):
                 v.violation("C15:other-list-affected:dump", "additions to one list changed the table of another list (%s)" % name, rep)
             # (v) after the first use
             use = a.meta["use"]
